@@ -18,7 +18,7 @@ func (e *Exec) runBody(fn *ssa.Function, args []Value) Value {
 	fr.boundary = true
 	e.nestDepth++
 	defer func() { e.nestDepth-- }()
-	res, pv := e.runUntil(g, base)
+	res, pv := e.runNested(g, base)
 	if pv != nil {
 		panic(pv)
 	}
